@@ -35,13 +35,13 @@ type history struct {
 
 var poolOps = []string{
 	"small", "small", "crs", "add", "add", "sub", "double", "neg", "mul", "mul", "msm", "commit", "redecode", "unc_trusted",
-	"normalize", "batchnorm", "rescale", "flip", "torsion", "pqq", "dist", "self_sub", "set", "setidentity", "mul_edge", "neg_pair",
+	"normalize", "batchnorm", "batchnorm_all", "rescale", "flip", "torsion", "pqq", "dist", "self_sub", "set", "setidentity", "mul_edge", "neg_pair",
 }
 
 // results reports how many pool slots an action appends.
 func (a act) results() int {
 	switch a.Op {
-	case "normalize", "batchnorm":
+	case "normalize", "batchnorm", "batchnorm_all":
 		return 0
 	case "dist", "neg_pair":
 		return 2
@@ -222,6 +222,12 @@ func runPool(h history, rec *hx.Rec) ([]*banderwagon.Element, error) {
 				}
 				if nerr := banderwagon.BatchNormalize(list); nerr != nil {
 					err = fmt.Errorf("BatchNormalize of valid elements failed: %v", nerr)
+				}
+			case "batchnorm_all": // every slot in one call (more distinct pointers than worker goroutines)
+				var list []*banderwagon.Element
+				list = append(list, pool[2:]...)
+				if nerr := banderwagon.BatchNormalize(list); nerr != nil {
+					err = fmt.Errorf("BatchNormalize of %d valid elements failed: %v", len(list), nerr)
 				}
 			case "rescale":
 				x := hx.ToImpl(hx.Rep(hx.FromImpl(A), 1, a.Seed))
